@@ -1214,10 +1214,11 @@ def handle : List String → String
     | some x, some p => "ok " ++ boolStr (matchesList x p)
     | _, _ => "unsupported"
   | ["unify", a, b] =>
-    -- model of selector-unify on two single compounds
+    -- model of selector-unify on two single compounds: `unify_complex([a, b])` (functions.rs:13) folds
+    -- the simples of the *second* operand into the compound of the first, i.e. `b.unify(a)`
     match (decodeSel a).bind singleCompound, (decodeSel b).bind singleCompound with
     | some x, some y =>
-      match unifyCompound x y with
+      match unifyCompound y x with
       | some c => "ok " ++ encodeChars (renderC c)
       | none => "ok null"
     | _, _ => "unsupported"
